@@ -94,7 +94,7 @@ def flags(variant, hooks=True):
 
 
 def _prune(keep_dir):
-    """Keep the disk footprint small: at most 4 cached builds."""
+    """Keep the disk footprint small: the 4 newest builds, and any build touched in the last 6 hours."""
     try:
         ds = [os.path.join(BUILD_ROOT, d) for d in os.listdir(BUILD_ROOT)]
     except FileNotFoundError:
